@@ -786,16 +786,21 @@ func (c *Ctx) c03EndOfEntry(uzf *ssa.Function) {
 		c.violate("W5", key, c.ipos(cp), "after the copy of the declared number of bytes a successful return ("+c.ipos(esc)+") is reached without the entry's reader having been read any further: the zip reader never compares the header's size and checksum with the data, an entry holding more data than its header declares is silently truncated and a wrong checksum goes unnoticed — no error for an archive whose headers contradict its data")
 		return
 	}
-	// the outcome of each probe is looked at
+	// the outcome of each probe is looked at — its error above all: archive/zip reports surplus data and a wrong
+	// checksum as (0, error), never through the byte count
 	for _, p := range probes {
-		used := false
-		for _, r := range *p.Referrers() {
-			if _, isDbg := r.(*ssa.DebugRef); !isDbg {
-				used = true
+		errUsed := false
+		for _, e := range errResultsOf(p) {
+			if e.Referrers() != nil {
+				for _, r := range *e.Referrers() {
+					if _, isDbg := r.(*ssa.DebugRef); !isDbg {
+						errUsed = true
+					}
+				}
 			}
 		}
-		if !used {
-			c.violate("W5", key, c.ipos(p), "the outcome of reading on after the copy is discarded")
+		if !errUsed {
+			c.violate("W5", key, c.ipos(p), "the error of reading on after the copy is discarded: archive/zip reports an entry longer than its header declares (zip.ErrFormat) and a wrong checksum (zip.ErrChecksum) as (0, error) — looking at the number of bytes alone accepts both")
 			return
 		}
 	}
